@@ -85,7 +85,10 @@ class RDDMConfig(BaseSPCConfig):
 
         :param value: value to be set
         :type value: int
+        :raises ValueError: Value error exception
         """
+        if value < 1:
+            raise ValueError("min_concept_size must be greater than 0.")
         self._min_concept_size = value
 
     @property
